@@ -2,7 +2,7 @@ use std::hash::Hash;
 use std::str::FromStr;
 
 use chrono::Duration;
-use tea_error::{TError, TResult, tbail, tensure};
+use tea_error::{terr, TError, TResult, tbail, tensure};
 
 use crate::convert::*;
 
@@ -124,7 +124,9 @@ impl TimeDelta {
         let mut unit = String::with_capacity(2);
         while let Some((i, mut ch)) = iter.next() {
             if !ch.is_ascii_digit() && i != 0 {
-                let n = duration[start..i].parse::<i64>().unwrap();
+                let n = duration[start..i].parse::<i64>().map_err(|_| {
+                    terr!(ParseError:"expected a number in the duration string, found '{}'", &duration[start..i])
+                })?;
                 loop {
                     if ch.is_ascii_alphabetic() {
                         unit.push(ch)
